@@ -259,6 +259,19 @@ def handle (op : String) (j : Json) : Option Json :=
       let r := detectNoRef fx vs f st c q qs
       some (Json.mkObj [("out", ofTriples r.1), ("err", optErr r.2)])
     | _, _, _, _, _, _ => some badInput
+  else if op == "c06.noref_singles" then
+    -- the right-hand side of `noref_multi_variant_independent`: every variant walked ALONE (fresh walker, empty queue)
+    match getVariants? j "variants", getNat? j "first", getNat? j "ref_start", getCigar? j "cigar", getSeq? j "query",
+          optNatList? j "quals" with
+    | some vs, some f, some st, some c, some q, some qs =>
+      let nvs := vs.map normalize
+      let vps : List VP := (((nonOverlapping nvs).filterMap (fun id => (nvs[id]?).map (fun v => (id, v)))).drop f).dropWhile
+        (fun p => p.2.pos < st)
+      let rs := vps.map (fun vp => noRefGo fx q qs false st 0 [vp] [] c)
+      let sorted := (vps.zip vps.tail).all (fun p => p.1.2.pos < p.2.2.pos)
+      some (Json.mkObj [("out", ofTriples (rs.flatMap (·.1))), ("clean", Json.bool (rs.all (·.2.isNone))),
+        ("sorted", Json.bool sorted), ("k", ofNat vps.length)])
+    | _, _, _, _, _, _ => some badInput
   else if op == "c06.normalize" then
     match getVariants? j "variants" with
     | some vs =>
